@@ -93,6 +93,28 @@ pub fn position_line(p: &Pos, moves: &[String]) -> String {
     l
 }
 
+/// inverse of `position_line` (also `position startpos ...`), through the reference
+pub fn pos_of_position_line(l: &str) -> Option<Pos> {
+    let t: Vec<&str> = l.split_whitespace().collect();
+    let (mut p, mut i) = match t.get(1) {
+        Some(&"startpos") => (Pos::startpos(), 2),
+        Some(&"fen") => {
+            let end = t.iter().position(|x| *x == "moves").unwrap_or(t.len());
+            (Pos::from_fen(&t[2..end].join(" ")).ok()?, end)
+        }
+        _ => return None,
+    };
+    if t.get(i) == Some(&"moves") {
+        i += 1;
+        while i < t.len() {
+            let m = p.find_legal_uci(t[i])?;
+            p = p.make(&m);
+            i += 1;
+        }
+    }
+    Some(p)
+}
+
 pub fn run_go(sess: &mut Session, go_line: &str, plan: Plan, actions: &dyn Fn(u64) -> Vec<GateAction>) -> SearchOut {
     let obs = sess.go(go_line, plan, actions);
     let mut out = SearchOut::default();
